@@ -59,6 +59,37 @@ func check(c Case) error {
 	if c.Func && (len(b.Callbacks) != 1 || b.Callbacks[0].Runs != 1 || b.Callbacks[0].Late != 0) {
 		return fmt.Errorf("callback ran %d times", b.Callbacks[0].Runs)
 	}
+	// the same statement printed on its own (Statement.GoString / Render), right after other stand-alone
+	// renders have failed or panicked half-way: the same tokens
+	if h := len(text) % 8; h == 0 {
+		hx.FailedFragments()
+		var frag string
+		if perr := hx.Safe(func() error {
+			st := (&recipe.Builder{}).Stmt(recipe.Id("a").C("Op", ":=").Then(lit.Clone()))
+			if len(text)%2 == 0 {
+				frag = st.GoString()
+				return nil
+			}
+			buf := &strings.Builder{}
+			if err := st.Render(buf); err != nil {
+				return err
+			}
+			frag = buf.String()
+			return nil
+		}); perr != nil {
+			return fmt.Errorf("the statement %q rendered on its own after failed stand-alone renders: %v", text, perr)
+		}
+		ft, err1 := litx.Scan(frag)
+		tt, err2 := litx.Scan(text)
+		if err1 != nil || err2 != nil || len(ft) != len(tt) {
+			return fmt.Errorf("the statement renders %q inside a File and %q on its own (after other stand-alone renders had failed)", text, frag)
+		}
+		for i := range ft {
+			if ft[i] != tt[i] {
+				return fmt.Errorf("the statement renders %q inside a File and %q on its own (after other stand-alone renders had failed)", text, frag)
+			}
+		}
+	}
 	src := text + "\nb"
 	toks, err := litx.Scan(src)
 	if err != nil {
